@@ -51,7 +51,7 @@ RULE = (
 )
 SCHEDULES = [(1, 0), (2, 0), (1, 1), (9, 7)]
 BOUNDS = {
-    "quick": {"seeds": [0, 1, 12], "schedules": SCHEDULES, "inputs_per_operation": 2},
+    "quick": {"seeds": [0, 1, 12], "schedules": SCHEDULES, "inputs_per_operation": 2, "cross_process": "12 library operations x 2 inputs x 2 seeds in 2 interpreters with different PYTHONHASHSEED"},
     "thorough": {"seeds": [0, 1, 2, 12, 2**32 - 1], "schedules": SCHEDULES + [(123456, 3), (0, 100)], "inputs_per_operation": 3},
 }
 ASSUMPTIONS = [
@@ -170,6 +170,22 @@ def _rows(variant):
             ("x", "p2", (("a", 1.0), ("d", 1.0)), 0.7, False),
             ("y", "p3", (("a", 1.0), ("b", 1.0)), 0.8, False),
             ("y", "p4", (("b", 1.0), ("d", 1.0)), 0.9, False),
+        ]
+    elif variant == 3:
+        rows = [
+            ("s0", "p1", (("a", 1.0), ("b", 1.0)), 0.35, False),
+            ("s0", "p1", (("a", 1.0), ("c", 1.0)), 0.55, False),
+            ("s0", "p2", (("b", 1.0), ("c", 1.0)), 0.65, False),
+            ("s0", "p2", (("c", 1.0), ("d", 1.0)), 0.66, False),
+            ("s1", "p3", (("a", 1.0), ("d", 1.0)), 0.75, False),
+            ("s1", "p3", (("b", 1.0), ("d", 1.0)), 0.45, False),
+            ("s1", "p4", (("a", 1.0), ("b", 1.0)), 0.15, False),
+            ("s0", "p5", (("a", 1.0), (ctl, 0.0)), 0.25, False),
+            ("s0", "p5", ((ctl, 0.0), ("b", 1.0)), 0.26, False),
+            ("s1", "p5", (("d", 1.0), (ctl, 0.0)), 0.27, False),
+            ("s1", "p5", (("a", 1.0), (ctl, 0.0)), 0.28, False),
+            ("zz", "p6", (("a", 1.0), ("b", 1.0)), 0.29, False),
+            ("zz", "p6", (("b", 1.0), (ctl, 0.0)), 0.30, False),
         ]
     else:
         rows = [
@@ -367,13 +383,13 @@ def _save_score_inputs(screen, tmp, n):
     return a, t, d
 
 
-def cli_scores(scorer, n):
+def cli_scores(scorer, n, n_chunks=1, chunk_index=0):
     def run(seed, variant, tmp):
         screen = input_screen(variant)
         a, t, d = _save_score_inputs(screen, tmp, n)
         out = os.path.join(tmp, "scores.h5")
         run_cli("calculate_scores", ["--data", a, "--thetas", t, "--distance-matrix", d, "--scorer", scorer, "--output", out,
-                                     "--n-chunks", 1, "--chunk-index", 0, "--seed", seed])
+                                     "--n-chunks", n_chunks, "--chunk-index", chunk_index, "--seed", seed])
         h = ChunkedScoresHolder.load_h5(out)
         return (h.plate_ids.tobytes(), h.scores.tobytes())
     return run
@@ -431,6 +447,8 @@ def operations(tier):
     ops["cli:train_model:SparseDrugComboInteraction"] = cli_train("SparseDrugComboInteraction")
     ops["cli:calculate_scores:RandomScorer"] = cli_scores("RandomScorer", 3)
     ops["cli:calculate_scores:GaussianDBALScorer"] = cli_scores("GaussianDBALScorer", 33)
+    ops["cli:calculate_scores:RandomScorer:chunk1of2"] = cli_scores("RandomScorer", 3, 2, 1)
+    ops["cli:calculate_scores:RandomScorer:chunk2of3"] = cli_scores("RandomScorer", 3, 3, 2)
     ops["cli:select_next_plate"] = cli_select
     ops["cli:evaluate_model"] = cli_evaluate
     return ops
@@ -530,6 +548,62 @@ def run_reuse(item, col, tier):
     col.sample({"reuse": item["op"], "alphabet(seed,input)": REUSE_ALPHABET, "history_depth": depth})
 
 
+# ------------------------------------------------------------------ other interpreter processes
+CROSS_OPS = ["gen:pairwise(1,0)", "gen:pairwise(1,2)", "gen:pairwise(2,0)", "gen:permutation", "gen:segregate(2)", "smooth:fixed(1)",
+             "smooth:optimal", "smooth:ensemble(2,1,1)", "sparse_cover", "holdout:plate", "holdout:random", "select:k-per-sample"]
+
+
+def child_main():
+    """Run in a fresh interpreter (other PYTHONHASHSEED): print {op|variant|seed: digest}."""
+    import json as _json
+
+    ops = operations("quick")
+    tmp = env.scratch_dir("c18x")
+    out = {}
+    try:
+        for name in CROSS_OPS:
+            for variant in (0, 3):
+                for seed in (0, 12):
+                    try:
+                        out[f"{name}|{variant}|{seed}"] = digest(ops[name](seed, variant, tmp))
+                    except Exception as exc:  # noqa: BLE001
+                        out[f"{name}|{variant}|{seed}"] = "raised:" + type(exc).__name__
+    finally:
+        shutil.rmtree(tmp, ignore_errors=True)
+    print("C18CHILD" + _json.dumps(out, sort_keys=True))
+
+
+def run_cross_process(item, col, tier):
+    """Identical inputs and identically seeded generators in separate interpreter processes whose string hashing
+    differs (PYTHONHASHSEED): the iteration order of a set / dict of strings must not reach the output."""
+    import json as _json
+    import subprocess
+
+    results = {}
+    for hs in item["hashseeds"]:
+        e = dict(os.environ, PYTHONHASHSEED=str(hs), PYTHONDONTWRITEBYTECODE="1")
+        r = subprocess.run([sys.executable, "-c", "import sys; sys.path.insert(0, %r); from mc.props import c18; c18.child_main()" % env.VERIF],
+                           env=e, capture_output=True, text=True, timeout=1200)
+        line = next((ln for ln in r.stdout.splitlines() if ln.startswith("C18CHILD")), None)
+        if line is None:
+            raise RuntimeError(f"child interpreter failed: {r.stderr[-400:]}")
+        results[hs] = _json.loads(line[len("C18CHILD"):])
+        col.evaluations += len(results[hs])
+        col.transitions += len(results[hs])
+    ref_hs = item["hashseeds"][0]
+    for key, d0 in results[ref_hs].items():
+        col.states += 1
+        col.outcome("cross", key, d0)
+        for hs in item["hashseeds"][1:]:
+            if results[hs].get(key) != d0:
+                name, variant, seed = key.split("|")
+                col.violation(f"C18|differs-across-processes|{name}",
+                              f"{name} (input {variant}, seed {seed}) gives different output in two interpreter processes that differ only in "
+                              f"PYTHONHASHSEED ({ref_hs} vs {hs})", {"cross": True, "hashseeds": [ref_hs, hs]})
+        col.nontriv("cross", key)
+    col.sample({"cross_process": {"hashseeds": item["hashseeds"], "operations": CROSS_OPS, "inputs": [0, 3], "seeds": [0, 12]}})
+
+
 # operations whose output legitimately does not depend on the seed (no randomness consumed)
 def plan(tier, seed):
     b = BOUNDS[tier]
@@ -539,6 +613,7 @@ def plan(tier, seed):
             items.append({"op": name, "variant": variant})
     for name in reuse_operations():
         items.append({"op": name, "reuse": True})
+    items.append({"op": "cross-process", "cross": True, "hashseeds": [1, 3, 5] if tier == "quick" else [1, 2, 3, 4, 5, 6]})
     return items
 
 
@@ -564,6 +639,9 @@ def one_run(fn, seed, variant, gseed, k, tmp):
 
 
 def run_item(item, col, tier):
+    if item.get("cross"):
+        run_cross_process(item, col, tier)
+        return
     if item.get("reuse"):
         run_reuse(item, col, tier)
         return
@@ -620,6 +698,9 @@ def run_item(item, col, tier):
 
 
 def replay(case, col):
+    if case.get("cross"):
+        run_cross_process({"hashseeds": case["hashseeds"]}, col, "quick")
+        return
     if "reuse" in case:
         make, call = reuse_operations()[case["reuse"]]
         hist = [tuple(h_) for h_ in case["history"]]
